@@ -295,6 +295,8 @@ pub fn set_values(
     // Add next() method
     let next_fn = interp.create_native_function("next", set_iterator_next, 0);
     guard.guard(next_fn.cheap_clone());
+    // Owned by the iterator from here on, not a permanent root
+    interp.root_guard.unguard(&next_fn);
     iter_obj
         .borrow_mut()
         .set_property(next_key, JsValue::Object(next_fn));
@@ -306,6 +308,8 @@ pub fn set_values(
     let iterator_key = crate::value::PropertyKey::Symbol(Box::new(iterator_symbol));
     let self_iterator_fn = interp.create_native_function("[Symbol.iterator]", set_iterator_self, 0);
     guard.guard(self_iterator_fn.cheap_clone());
+    // Owned by the iterator from here on, not a permanent root
+    interp.root_guard.unguard(&self_iterator_fn);
     iter_obj
         .borrow_mut()
         .set_property(iterator_key, JsValue::Object(self_iterator_fn));
@@ -445,6 +449,8 @@ pub fn set_entries(
     // Add next() method (reuse the same iterator next function)
     let next_fn = interp.create_native_function("next", set_iterator_next, 0);
     guard.guard(next_fn.cheap_clone());
+    // Owned by the iterator from here on, not a permanent root
+    interp.root_guard.unguard(&next_fn);
     iter_obj
         .borrow_mut()
         .set_property(next_key, JsValue::Object(next_fn));
@@ -456,6 +462,8 @@ pub fn set_entries(
     let iterator_key = crate::value::PropertyKey::Symbol(Box::new(iterator_symbol));
     let self_iterator_fn = interp.create_native_function("[Symbol.iterator]", set_iterator_self, 0);
     guard.guard(self_iterator_fn.cheap_clone());
+    // Owned by the iterator from here on, not a permanent root
+    interp.root_guard.unguard(&self_iterator_fn);
     iter_obj
         .borrow_mut()
         .set_property(iterator_key, JsValue::Object(self_iterator_fn));
